@@ -96,6 +96,10 @@ def make_schedule(rng, lines, slow):
         k = rng.choice([1, 2, 7, 50, 99, 100, 101, 250, 1000, 5000])
         sched.append({"sleep": rng.choice([0, 0, 0.001, 0.005, 0.02, 0.05]) * slow, "lines": lines[i:i + k]})
         i += k
+    total = sum(b["sleep"] for b in sched)
+    if total > 12:          # keep a session's loading phase within a dozen seconds
+        for b in sched:
+            b["sleep"] *= 12.0 / total
     return sched
 
 
